@@ -3411,3 +3411,47 @@ func ruleHeadingPerElement(r *Run) {
 	}
 	r.Min("heading_collecting_loops", n, 2)
 }
+
+// ---------------------------------------------------------------------------
+// R-RUNS-KEPT (C18): rendering "leaves all other content … breaks … as they were".  A helper on the
+// template path that maps a run list to a run list (coalescing, normalising) must keep every run:
+// its result is built by a loop over the argument that appends the loop's element on every
+// iteration.  Folding a run into its neighbour because the FORMATTING is equal throws away
+// whatever else the run carries (a page break, a drawing, a field character).
+// ---------------------------------------------------------------------------
+
+func ruleRunsKept(r *Run) {
+	p := r.P
+	n := 0
+	for _, fn := range p.ModFuncs() {
+		if fn.Pkg == nil || fn.Pkg.Pkg.Path() != pkgDoc || fn.Parent() != nil || len(fn.Blocks) == 0 {
+			continue
+		}
+		isRuns := func(t types.Type) bool { return sliceOfPtrTo(t, pkgDoc, "Run") }
+		var par *ssa.Parameter
+		for _, q := range fn.Params {
+			if isRuns(q.Type()) {
+				par = q
+			}
+		}
+		res := fn.Signature.Results()
+		if par == nil || res.Len() != 1 || !isRuns(res.At(0).Type()) {
+			continue
+		}
+		n++
+		c := &collector{p: p, paramComplete: true}
+		okAll, why := true, ""
+		for _, ret := range returnsOf(fn) {
+			v := retResult(ret, 0)
+			if v == ssa.Value(par) {
+				continue
+			}
+			if o, w := c.containsAll(v); !o {
+				okAll, why = false, w
+			}
+		}
+		r.Check("runs-kept", shortName(fn), fn.Pos(), okAll,
+			fmt.Sprintf("%s turns a list of runs into a list of runs; every run of the argument must be in the result: %s", shortName(fn), map[bool]string{true: "yes", false: "NOT shown — " + why + "; a run that is folded into its neighbour or skipped loses its break, drawing or field character"}[okAll]))
+	}
+	r.Count("run_list_transformers", n)
+}
